@@ -419,6 +419,8 @@ class StrModel:
             return C(b[pos] if pos < len(b) else 0, "u8")
         if m == "str_len":
             return C(len(text.encode("utf-8")), "usize")
+        if m == "str_from_char":
+            return C(text[rest[0][1]:], "str")
         if m in ("str_slice", "is_char_boundary_range"):
             # byte-offset slicing: (lo,) | (lo, hi) | ... given as a tuple aggregate of usize
             rng = rest[0]
@@ -515,10 +517,13 @@ def check_C12(ctx):
         key, sty = ctx.method("u32", "from_index", PC)
         s_ = ctx.summ(key, [("v", atom("text", "str"))], sty)
         dag = s_.ret
-        # dataflow: only the first two characters of the token are read
+        # dataflow: only the first two characters of the token are read (in the result as it is when no panic site
+        # fired: the asserted conditions, which guard the paths behind them, are taken as true here and decided below)
         positions = set()
         other = set()
-        for x in walk(dag):
+        asserted = {id(o.cond) for o in s_.obligations if o.cond[0] != "c"}
+        dag_a = substitute(dag, lambda nd: TRUE if id(nd) in asserted else None) if asserted else dag
+        for x in walk(dag_a):
             if x[0] == "call":
                 if x[1] in ("has_char", "char_at") and x[2][0][0] != "call":
                     positions.add(cval(x[2][1]))
@@ -526,9 +531,12 @@ def check_C12(ctx):
                     pass  # reads through byte offsets / sub-slices: decided by the fold and the panic-site check below
                 elif x[1].startswith(("has_", "token", "ascii_", "str_", "char_", "byte_")):
                     other.add(x[1])
+        len_in_sites = False
         for o in s_.obligations:
             for x in walk(o.cond):
-                if x[0] == "call" and x[1].startswith(("has_", "token", "ascii_", "str_")) and x[1] not in ("has_char", "has_byte", "str_slice"):
+                if x[0] == "call" and x[1] == "str_len":
+                    len_in_sites = True     # an assertion about the length: decided below on tokens with long tails too
+                elif x[0] == "call" and x[1].startswith(("has_", "token", "ascii_", "str_")) and x[1] not in ("has_char", "has_byte", "str_slice"):
                     other.add(x[1])
         rep.ob("C12.token-reads", "positions", positions <= {0, 1}, "from_index reads character positions %s (the tail must not matter)" % sorted(positions, key=str), pdb.where(key))
         rep.ob("C12.token-reads", "operations", not other, "from_index uses text operations other than reading characters in order: %s" % sorted(other), pdb.where(key))
@@ -549,10 +557,13 @@ def check_C12(ctx):
         rep.sample({"rule": "C12.token", "alphabet": len(alphabet), "strings": len(strs), "example": ["A♠", "%#x" % expected_card("A♠")]})
         # totality: every panic site on the path holds for every string of the alphabet
         sites = {}
+        strs_t = list(strs)
+        if len_in_sites:
+            strs_t += [h + tail for h in ["", "A", "A♠", "kh", "♠A", "xx", "é♦"] for tail in ["z" * 1, "z" * 7, "♠" * 40, "q" * 300, " " * 3 + "x" * 70000]]
         for o in s_.obligations:
             k = (o.fn, o.kind, o.line)
             okall = True
-            for t in strs:
+            for t in strs_t:
                 env = {"text": C(t, "str"), "$str": StrModel.handler}
                 try:
                     if all(cval(evaluate(pdb, c, env)) for c in o.pc) and not cval(evaluate(pdb, o.cond, env)):
